@@ -83,6 +83,16 @@ def cases(tier, seed):
             cs.append({'gen': 'prod', 'routine': routine, 'M': list(n3), 'N': list(n3), 'K': [rng.randint(1, 2) for _ in range(3)], 'RA': [1, 1, 1, 1], 'RB': [1, 4, 4, 1], 'vals': 'gauss',
                        'eps': 1e-12, 'guess': ['none', 'user'][(i // 4) % 2], 'dtype': 'f64', 'vseed': rng.randrange(2 ** 40), 'RG': [1, 3, 3, 1], 'sidx': j, 'scale': 1.0,
                        'tail4': [3e-11, 5e-11, 8e-11][(i // 4) % 3]})
+    # directed: a second operand whose terms cancel, x = (y + delta*z) - y formed by the library (delta 1e-5 / 1e-6), at eps = 1e-12: the sweeps cannot reach a relative change
+    # of eps (the operand itself is only known to u/delta), so the whole default sweep budget is used and the code of the LAST permitted sweep decides the result
+    for i in range(12 if not T else 96):
+        routine = ROUTINES[i % 4]
+        d = rng.choice([3, 3, 4])
+        n = rng.choice((4, 5))
+        for j in range(k):
+            cs.append({'gen': 'prod', 'routine': routine, 'M': [n] * d, 'N': [n] * d, 'K': [2] * d, 'RA': [1] + [rng.randint(1, 2) for _ in range(d - 1)] + [1],
+                       'RB': [1] + [rng.randint(1, 2) for _ in range(d - 1)] + [1], 'vals': 'gauss', 'eps': 1e-12, 'guess': 'none', 'dtype': 'f64', 'vseed': rng.randrange(2 ** 40),
+                       'RG': [1] * (d + 1), 'sidx': j, 'scale': 1.0, 'stall': [1e-5, 1e-6][(i // 4) % 2]})
     # directed: order 1 and 2, singleton modes, zero operands
     for routine in ROUTINES:
         for (M, N) in [([3], [4]), ([1], [1]), ([2, 3], [3, 2]), ([1, 4], [2, 1]), ([2, 1, 2], [1, 3, 1])]:
@@ -202,6 +212,14 @@ def run_case(case, ctx):
         if case['guess'] == 'user':
             guess = mk(case, g, K, case['RG'], M=M, vals='gauss')
         f = (lambda a, b, c: torchtt.amen_mm(a, b, X0=c, eps=eps)) if guess is not None else (lambda a, b: torchtt.amen_mm(a, b, eps=eps))
+        ops = (A, x)
+    if case.get('stall'):
+        ctx.count('class:cancelling-second-operand')
+        z_ = mk(case, g, list(x.N), [1] * (d + 1), M=list(x.M) if x.is_ttm else None, vals='gauss')
+        dl_ = case['stall']
+        y_ = ctx.call('TT+TT', lambda p_, q_: p_ + dl_ * q_, x, z_)
+        x = ctx.call('TT-TT', lambda p_, q_: p_ - q_, y_, x)
+        ref = dn.D(A) * dn.D(x) if routine == 'dmrg_hadamard' else torch.tensordot(dn.D(A), dn.D(x), dims=d)
         ops = (A, x)
     if case.get('tail4'):
         ctx.count('class:prescribed-spectrum-tail')
